@@ -1,4 +1,5 @@
 #!/bin/bash
+export VERIF_EVIDENCE_DIR=/verif/.scratch/seed-evidence   # never overwrite evidence/ with a run on a modified tree
 # usage: confirm_seed.sh Cxx   — confirms /tmp/wt/out/Cxx/patch_{a,b}.diff in the scratch worktree /tmp/wt/Cxx and
 # copies confirmed ones to /verif/seeded/Cxx_{a,b}/
 p=$1; wt=/tmp/wt/$p; out=/tmp/wt/out/$p
